@@ -185,6 +185,8 @@ func lrSentence(t *rapid.T) []string {
 }
 
 var lexical = []string{
+	"a\x00", "a = 1 \x00 ]]]", "\x00", "'a\x00b'", "a\x00b", "0\x00", "a \x00", "a\x01", "'\x01'", "a\x7f",
+	".0", ".05", ".007", ".00", "0.", "00", "007", "0.0", ".9", "1.50", "a > .05", "a[. < .01]", ". < .0", ".0.", "..0", ". 0", "a/.0",
 	"1", "1.", ".1", "1.2.3", "1e5", "1e", "1e+5", "1E5", "1.e5", ".5e3", "1..2", "0x10", "1_0", "1a", "1 e5", "12e", strings.Repeat("9", 400), "1.5.", ". 5", "1 . 5", "5 .", "..5", "1..",
 	"''", "\"\"", "'a", "\"a", "'a\"", "'a''", "'a' 'b'", "'it''s'", "\"it's\"", "'\xff'", "'a\xc3'", "\"\xe2\x82\"", "'\xed\xa0\x80'",
 	"", " ", "\t\n", "a\xff", "\xffa", "a:\xff", "\xff:a", "a[\xff]", "a \xff", "$a", "$p:a", "a$", "#", "a#b", "a{b}", "a\\b", "a;b", "a?b", "a~b", "a%b", "a&b", "a^b", "a`b",
@@ -245,6 +247,15 @@ func genCase(t *rapid.T) Case {
 			c.Src = fw.BStr("p:" + string(r) + "x")
 		}
 		return c
+	}
+	// numbers in every lexical form of the Number production (Digits ('.' Digits?)? | '.' Digits), leading zeros included
+	if pick(3, "numforms") == 1 {
+		forms := []string{".0", ".05", ".007", "0.", "00", "007", "1.", "1.0", "0.0", ".9", "10", "1.50", ".50", "0", "9.", ".1234567890"}
+		for i, tk := range toks {
+			if tk != "" && tk != "." && tk != ".." && strings.Trim(tk, "0123456789.") == "" {
+				toks[i] = forms[pick(len(forms), "numform")]
+			}
+		}
 	}
 	// one token edit (or none)
 	c.Near = true
